@@ -104,6 +104,16 @@ func TestPrivateKey(priv []byte) int {
 	if l > 0 {
 		return l
 	}
+
+	// zero is not a valid private key, whatever its encoded length
+	var acc byte
+	for _, b := range priv {
+		acc |= b
+	}
+	if acc == 0 {
+		return -1
+	}
+
 	if l < 0 {
 		return 0
 	}
